@@ -88,7 +88,9 @@ CaseRec == [fam |-> "tokens", in |-> c,
                     ELSE IF c.cfg.claimMap = "unset" /\ Req_Acceptable([c.tok EXCEPT !.ev = "true"], c.cfg, c.path) THEN [unverifiedEmailUsed |-> FALSE, panic |-> FALSE]
                     ELSE IF Req_Acceptable(c.tok, c.cfg, c.path)
                     THEN [accepted |-> TRUE, identity |-> IF c.cfg.claimMap = "custom" THEN Req_IdentityCustom ELSE Req_Identity(c.tok, c.path), panic |-> FALSE]
-                    ELSE [accepted |-> FALSE, panic |-> FALSE]]
+                    \* foreignIdentity (refresh path): the rejected refreshed token names another identity; the request may still be served
+                    \* from the re-validated OLD session, but never with anything taken from the token that was not accepted
+                    ELSE [accepted |-> FALSE, panic |-> FALSE] @@ (IF c.path = "refresh" THEN [foreignIdentity |-> FALSE] ELSE <<>>)]
 EmitVocab == JsonSerialize("vocab.json", Vocab)
 EmitCase  == CSVWrite("%1$s", <<ToJson(CaseRec)>>, "cases.ndjson")
 =============================================================================
